@@ -37,6 +37,9 @@ func (c05) Runs(tier string) int {
 	return 64
 }
 
+// HangSeconds: one run enumerates every byte offset of a document and may take minutes.
+func (c05) HangSeconds() int { return 1800 }
+
 func (c05) Describe() Description {
 	return Description{
 		Level: "fault_enumeration",
@@ -278,10 +281,29 @@ func (p c05) Exec(c *sim.Case, env *Env) []sim.Violation {
 	case 2:
 		target = filepath.Join(dir, "new", "nested", "dirs", "out.docx")
 	}
+	// the file that target=1 finds in place: a valid package, longer than the new one
+	older := olderVersion(fb)
+	if c.C("target") == 1 && c.C("offset_set") == 0 {
+		// fault-free overwrite of the longer existing file
+		_ = os.MkdirAll(filepath.Dir(target), 0o755)
+		_ = os.WriteFile(target, older, 0o644)
+		if err := d.Save(target); err != nil {
+			return fail("spurious-error", "overwrite-existing-failed", err.Error())
+		}
+		got, _ := os.ReadFile(target)
+		now, _ := d.ToBytes()
+		env.Stats.Probe("evaluations")
+		if ok, why := sameParts(got, now); !ok {
+			return fail("nil-on-fault", "overwrite-existing:"+map[bool]string{true: "readable-but-different", false: "damaged-file"}[readable(got)], "Save over an existing longer file returned nil: "+why)
+		}
+		if !endsAtEOCD(got) {
+			return fail("nil-on-fault", "overwrite-existing:trailing-bytes", fmt.Sprintf("Save over an existing longer file returned nil but the file (%d bytes) does not end with the end-of-central-directory record of the new package (%d bytes)", len(got), L))
+		}
+	}
 	nilOK, errs := 0, 0
 	for _, n := range offsets {
 		if c.C("target") == 1 {
-			_ = os.WriteFile(target, bytes.Repeat([]byte{0xAA}, int(L)+1000), 0o644)
+			_ = os.WriteFile(target, older, 0o644) // an earlier, longer version of the package is in the way
 		} else {
 			os.Remove(target)
 			if c.C("target") == 2 {
@@ -312,6 +334,9 @@ func (p c05) Exec(c *sim.Case, env *Env) []sim.Violation {
 			continue
 		}
 		nilOK++
+		if !endsAtEOCD(got) {
+			return fail("nil-on-fault", "trailing-bytes", fmt.Sprintf("limit %d, output length %d: Save returned nil but the file (%d bytes) has bytes after the end-of-central-directory record", n, L, len(got)))
+		}
 		now, _ := d.ToBytes()
 		if ok, why := sameParts(got, now); !ok {
 			cls := "damaged-file"
@@ -331,6 +356,43 @@ func (p c05) Exec(c *sim.Case, env *Env) []sim.Violation {
 	}
 	env.Log.Event("offsets=%d nil=%d err=%d exhaustive=%v ordercalls=%d", len(offsets), nilOK, errs, exhaustive, ord.Calls)
 	return viol
+}
+
+func readable(b []byte) bool {
+	_, err := inspect.ReadZip(b)
+	return err == nil
+}
+
+// endsAtEOCD reports whether the file ends exactly with a ZIP
+// end-of-central-directory record (no stale or foreign bytes after it).
+func endsAtEOCD(b []byte) bool {
+	for i := len(b) - 22; i >= 0 && i >= len(b)-22-65535; i-- {
+		if b[i] == 'P' && b[i+1] == 'K' && b[i+2] == 5 && b[i+3] == 6 {
+			cl := int(b[i+20]) | int(b[i+21])<<8
+			if i+22+cl == len(b) {
+				return true
+			}
+		}
+	}
+	return false
+}
+
+// olderVersion builds a valid package that is longer than b: the same parts
+// plus one more (what an earlier, bigger save of the document leaves behind).
+func olderVersion(b []byte) []byte {
+	pkg, err := inspect.ReadZip(b)
+	if err != nil {
+		return append(append([]byte{}, b...), bytes.Repeat([]byte{0xAA}, 1000)...)
+	}
+	names := append([]string{}, pkg.Names...)
+	names = append(names, "word/removed-later.bin")
+	r := sim.NewRand(uint64(len(b)))
+	extra := make([]byte, 3000)
+	for i := range extra {
+		extra[i] = byte(r.Intn(256))
+	}
+	pkg.Parts["word/removed-later.bin"] = extra
+	return rezip(names, pkg.Parts)
 }
 
 func minInt(a, b int) int {
